@@ -74,13 +74,22 @@ def harness(tier, seed):
                 mode = "raw"
                 collected = 0
                 trace = []
-                for step in range(rng.randint(4, 9)):
-                    op = rng.choice(["eval", "eval", "eval", "set_model", "set_raw", "get_diff", "init"])
+                # a few scripted histories first (each clause of the statement about the collected data is exercised on
+                # every run, whatever the seed), then random ones
+                scripts = [["eval", "init", "eval", "get_diff"],
+                           ["eval", "set_model", "eval", "set_raw", "eval", "get_diff"],
+                           ["eval", "get_diff", "eval", "get_diff", "init", "eval", "get_diff"]]
+                if sq < len(scripts):
+                    ops = scripts[sq]
+                else:
+                    ops = [rng.choice(["eval", "eval", "eval", "set_model", "set_raw", "get_diff", "init"])
+                           for _ in range(rng.randint(4, 9))]
+                for op in ops:
                     trace.append(op)
                     info = {"system": system.name, "controller": ctrl.name, "objective": cls.__name__, "trace": list(trace)}
                     if op == "eval":
                         # 1e30: every training case fails at once (the result must be the failure value 1e200)
-                        scale = rng.choice([0.1, 1.0, 3.0, 10.0, 1e30])
+                        scale = rng.choice([0.1, 1.0, 3.0, 10.0, 1e30]) if sq >= len(scripts) else rng.choice([0.1, 1.0])
                         x = np.array([rng.uniform(-1, 1) * scale for _ in range(ctrl.param_dims)])
                         info["x"] = x.tolist()
                         import signal
